@@ -767,6 +767,24 @@ def rule_G(ctx):
                 elif not same(got, want):
                     found.setdefault(('prepared', 'value'), (fprep, 'the prepared table answers every reachable pair with its shortest distance',
                                                              dict(desc, query=[s, t], returned=got, minimum=want)))
+        # prepared with a cut-off (zero included: only the pairs joined by walks of total weight 0 remain): the table of the network
+        # holds exactly the pairs within the cut-off
+        for cut in [0] + [c for c in finite if c > 0][:1]:
+            net4, _, _ = H.build(nodes, edges)
+            n_queries += 1
+            ok, _r = H.guard(fprep, lambda: net4.call('prepare', cut, False))
+            tab = net4.fields.get('DISTANCES') if ok else None
+            want = {(s, t): v for (s, t), v in d.items() if v <= cut}
+            if not ok or not isinstance(tab, dict):
+                found.setdefault(('prepared', 'fails'), (fprep, 'prepare does not fail', dict(desc, cut=cut, exception=_r if not ok else repr(tab)[:80])))
+                continue
+            missing = sorted((k for k in want if k not in tab), key=repr)
+            extra = sorted((k for k in tab if k not in want), key=repr)
+            wrong = sorted((k for k in want if k in tab and not same(tab[k], want[k])), key=repr)
+            if missing or extra or wrong:
+                found.setdefault(('prepared', 'cut'), (fprep, 'prepare(cut) leaves in the table exactly the pairs whose shortest distance is at most the cut-off, with that distance',
+                                                       dict(desc, cut=cut, **{'pairs missing': [list(k) for k in missing][:4], 'pairs that should not be there': [list(k) for k in extra][:4],
+                                                                              'wrong values': [[list(k), tab[k], want[k]] for k in wrong][:4]})))
     # preparing again with a larger cut-off on the same network object: the table then holds every pair within the new cut-off
     for label, nodes, edges, layout in [fm for fm in netmodel.families('quick') if fm[0].startswith(('chain A-B-C orientations (+0, +0) weights (1, 3)', 'diamond'))][:3]:
         d = H.distances(nodes, edges)
